@@ -115,15 +115,17 @@ static void info_put(result *r, lzma_ret code, uint64_t total_out)
 }
 
 // Generic application loop around an initialised stream.
+// Zero-length input/output slices are handed out only directly after a call that made progress, so that the
+// application itself never provokes LZMA_BUF_ERROR (two consecutive calls without progress) on a decodable prefix.
 static void app_loop(lzma_stream *strm, const uint8_t *data, size_t len, slicing ins, slicing outs, uint64_t slice_seed,
 		int fin, long endat, uint64_t maxcalls, int prog, int mlraise, result *r)
 {
 	uint64_t rng = slice_seed * 77 + 5;
-	size_t pos = 0;                 // bytes handed to the decoder so far (end of current slice)
-	uint8_t *obuf = malloc(1 << 16);
+	size_t pos = 0;                 // bytes handed to the decoder so far (end of the current input slice)
 	size_t ocap = 1 << 16;
-	size_t ogiven = 0;
+	uint8_t *obuf = malloc(ocap);
 	uint64_t noprog = 0;
+	int last_progress = 1;
 	uint64_t last_pin = 0, last_pout = 0;
 	strm->next_in = data;
 	strm->avail_in = 0;
@@ -133,29 +135,25 @@ static void app_loop(lzma_stream *strm, const uint8_t *data, size_t len, slicing
 	for (;;) {
 		if (strm->avail_in == 0 && pos < len) {
 			size_t k = next_slice(&ins, &rng, len - pos, len);
-			// exactly sized copy so that ASan sees overreads
+			if (k == 0 && !last_progress) k = 1;
 			strm->next_in = data + pos;
 			strm->avail_in = k;
 			pos += k;
 		}
 		if (strm->avail_out == 0) {
-			// flush what was produced, hand out a new slice
 			size_t k = next_slice(&outs, &rng, (size_t)-1, 1 << 16);
-			if (k > ocap) { obuf = realloc(obuf, k); ocap = k; }
+			if (k == 0 && !last_progress) k = 1;
+			if (k > ocap) { obuf = realloc(obuf, k); ocap = k; if (!obuf) abort(); }
 			strm->next_out = obuf;
 			strm->avail_out = k;
-			ogiven = k;
 		}
 		lzma_action act = (fin && pos == len) ? LZMA_FINISH : LZMA_RUN;
 		const size_t in_before = strm->avail_in, out_before = strm->avail_out;
+		const uint8_t *out_start = strm->next_out;
 		lzma_ret ret = lzma_code(strm, act);
 		++r->calls;
-		vec_put(&r->out, obuf + (ogiven - out_before), out_before - strm->avail_out);
-		// compact the out window: treat the remaining space as the current slice
-		if (strm->avail_out != 0) {
-			ogiven = strm->avail_out;
-			strm->next_out = obuf;
-		}
+		vec_put(&r->out, out_start, out_before - strm->avail_out);
+		last_progress = in_before != strm->avail_in || out_before != strm->avail_out;
 		if (prog) {
 			uint64_t pin = 0, pout = 0;
 			lzma_get_progress(strm, &pin, &pout);
@@ -169,19 +167,20 @@ static void app_loop(lzma_stream *strm, const uint8_t *data, size_t len, slicing
 			break;
 		}
 		if (ret == LZMA_OK) {
-			if (in_before == strm->avail_in && out_before == strm->avail_out) ++noprog; else noprog = 0;
+			if (!last_progress) ++noprog; else noprog = 0;
 			if (r->calls >= maxcalls) { r->ret = (lzma_ret)100; break; }   // 100 = call budget exhausted
 			continue;
 		}
 		if (ret == LZMA_NO_CHECK || ret == LZMA_UNSUPPORTED_CHECK || ret == LZMA_GET_CHECK) {
 			info_put(r, ret, strm->total_out);
 			noprog = 0;
+			last_progress = 1;
 			continue;
 		}
 		if (ret == LZMA_MEMLIMIT_ERROR && mlraise) {
 			info_put(r, ret, strm->total_out);
 			mlraise = 0;
-			if (lzma_memlimit_set(strm, UINT64_MAX) == LZMA_OK) { noprog = 0; continue; }
+			if (lzma_memlimit_set(strm, UINT64_MAX) == LZMA_OK) { noprog = 0; last_progress = 1; continue; }
 		}
 		r->ret = ret;
 		break;
